@@ -1474,14 +1474,118 @@ func (g *gen) variadicNestStmt() string {
 	return strings.TrimSuffix(sb.String(), "\n")
 }
 
+// functions and lambdas with 5..8 parameters (and variadics receiving 5 or more arguments), called two or three
+// times with arguments that differ only in a late position (5th, 6th, ...), with calls differing only in an early
+// position as controls.  The callee prints, and the result is used: every call must be evaluated on its own
+// arguments (a remembered result keyed on a prefix of the arguments would replay output and value).
+func (g *gen) manyArgsStmt() string {
+	g.feat("many-args")
+	var sb strings.Builder
+	w := func(f string, a ...any) { sb.WriteString(fmt.Sprintf(f, a...) + "\n") }
+	f := g.fresh("fw")
+	np := 5 + g.n(4)
+	variadic := g.pct(35)
+	fixed := np
+	if variadic {
+		fixed = g.n(3) // 0..2 named parameters, the rest arrives in ..
+		g.feat("many-args-variadic")
+	}
+	names := make([]string, fixed)
+	for i := range names {
+		names[i] = fmt.Sprintf("q%d", i+1)
+	}
+	sig := strings.Join(names, ", ")
+	if variadic {
+		if fixed > 0 {
+			sig += ", "
+		}
+		sig += ".."
+	}
+	var expr string
+	if variadic {
+		expr = g.pick("..[-1]", "[len(..), ..[-1], ..[4 - "+fmt.Sprint(fixed)+"]]", "..[-1] * 10 + len(..)", "..")
+		if fixed > 0 {
+			expr = g.pick(expr, "["+names[0]+", ..[-1]]")
+		}
+	} else {
+		switch g.n(4) {
+		case 0:
+			expr = strings.Join(names, " + ")
+		case 1:
+			expr = "[" + strings.Join(names, ", ") + "]"
+		case 2:
+			expr = names[np-1] + " * 100 + " + names[0]
+		default:
+			expr = "{\"first\": " + names[0] + ", \"last\": " + names[np-1] + ", \"fifth\": " + names[4] + "}"
+		}
+	}
+	pr := ""
+	if g.pct(75) {
+		if variadic {
+			pr = "println(\"in " + f + "\", ..)\n"
+		} else {
+			pr = "println(\"in " + f + "\", " + names[0] + ", " + names[4] + ", " + names[np-1] + ")\n"
+		}
+	}
+	switch g.n(3) {
+	case 0:
+		w("func %s(%s) {%s%s}", f, sig, pr, expr)
+	case 1:
+		w("%s = func(%s) {%s%s}", f, sig, pr, expr)
+	default:
+		if variadic || pr != "" {
+			w("%s = func(%s) {%s%s}", f, sig, pr, expr)
+		} else {
+			w("%s = (%s) => %s", f, sig, expr)
+		}
+	}
+	base := make([]string, np)
+	for i := range base {
+		if g.pct(15) {
+			base[i] = g.pick("\"s\"", "true", "nil", "2.5")
+			if !variadic && (strings.Contains(expr, " + ") || strings.Contains(expr, " * ")) {
+				base[i] = fmt.Sprint(g.n(9))
+			}
+		} else {
+			base[i] = fmt.Sprint(g.n(9))
+		}
+	}
+	call := func(a []string) string { return f + "(" + strings.Join(a, ", ") + ")" }
+	variant := func(pos int) []string {
+		a := append([]string(nil), base...)
+		a[pos] = fmt.Sprint(50 + g.n(40))
+		return a
+	}
+	late1 := variant(4 + g.n(np-4))
+	late2 := variant(np - 1)
+	early := variant(g.n(4))
+	calls := []string{call(base), call(late1), call(late2), call(early), call(base)}
+	if g.pct(50) { // as statements using the result
+		r := g.fresh("rw")
+		w("%s = [%s]", r, strings.Join(calls, ", "))
+		w("println(%s)", r)
+	} else {
+		for _, c := range calls {
+			w("println(%s)", c)
+		}
+	}
+	if variadic && g.pct(50) { // the same through a spread array argument
+		w("println(%s(%s), %s(%s))", f, "["+strings.Join(base, ", ")+"]", f, "["+strings.Join(late2, ", ")+"]")
+	}
+	return strings.TrimSuffix(sb.String(), "\n")
+}
+
 func (g *gen) edgeProgram() string {
 	var parts []string
 	n := 1 + g.n(3)
 	for i := 0; i < n; i++ {
-		if g.pct(75) {
+		switch k := g.n(100); {
+		case k < 45:
 			parts = append(parts, g.edgeCmpStmt())
-		} else {
+		case k < 65:
 			parts = append(parts, g.variadicNestStmt())
+		default:
+			parts = append(parts, g.manyArgsStmt())
 		}
 	}
 	return strings.ReplaceAll(strings.Join(parts, "\n"), "\n", ";\n")
@@ -1693,8 +1797,11 @@ func (g *gen) stmt(nest int, ret ty) string {
 			return g.idiomStmt()
 		}
 		if g.pct(40) && !g.inFunc() && g.inLoop == 0 {
-			if g.pct(50) {
+			switch g.n(3) {
+			case 0:
 				return g.edgeCmpStmt()
+			case 1:
+				return g.manyArgsStmt()
 			}
 			return g.variadicNestStmt()
 		}
